@@ -3,7 +3,7 @@
    hold listed tables, a column whose type is an Enum object holds a listed enum (invariant LinkedMore, carried together
    with Inv through every Blueprint.build and build_database); consequences for Reference.table1/table2, Table.get_refs
    and the SQL key holder. *)
-From PyDBML Require Import PyStr Py Heap Classes Database Tools PP Actions Build RenderSQL GenClasses GenGrammar Entry MonadFacts ToolsFacts RuleFacts ContainerInv ContainerFull TableInv BuildInv.
+From PyDBML Require Import PyStr Py Heap Classes Database Tools PP Actions Build RenderSQL GenClasses GenGrammar Entry MonadFacts ToolsFacts SqlFacts RuleFacts ContainerInv ContainerFull TableInv BuildInv.
 From Coq Require Import Lia.
 Import ListNotations.
 
@@ -24,7 +24,10 @@ Record LinkedMore (h : heap) (d : oid) (db : database) : Prop := {
   lm_groups : forall g gg, In g (d_table_groups db) -> h_group h g = Some gg -> incl (g_items gg) (d_tables db);
   (* a column (of a table created after the database) whose type is an Enum object holds a listed enum *)
   lm_enums : forall t tb c cc e, d < t -> h_table h t = Some tb -> In c (t_columns tb) -> h_column h c = Some cc ->
-               c_type cc = CTEnum e -> In e (d_enums db) }.
+               c_type cc = CTEnum e -> In e (d_enums db);
+  (* the column subjects of an index (of a table created after the database) are that table's own columns *)
+  lm_subjects : forall t tb i ix subs c, d < t -> h_table h t = Some tb -> In i (t_indexes tb) -> h_index h i = Some ix ->
+                  i_subjects ix = Some subs -> In (SubCol c) subs -> In c (t_columns tb) }.
 
 Definition JM (d : oid) (h : heap) : Prop := exists db, Inv h d db /\ LinkedMore h d db.
 
@@ -35,9 +38,10 @@ Proof. unfold h_group. destruct (nth_error h c) as [[]|]; split; intros H; try d
 
 (* the part of the class view the linking statements read: columns of a table, type of a column, endpoints of a
    reference, items of a group *)
-Inductive lview := LT (cols : list oid) | LC (ty : coltype) | LR (c1 c2 : option (list oid)) | LG (items : list oid) | LO.
+Inductive lview := LT (cols idxs : list oid) | LC (ty : coltype) | LR (c1 c2 : option (list oid)) | LG (items : list oid)
+                  | LI (o : option oid) (subs : option (list subject)) | LO.
 Definition lv (v : cview) : lview :=
-  match v with VT cols _ => LT cols | VC _ ty => LC ty | VR a b => LR a b | VG i => LG i | _ => LO end.
+  match v with VT cols idxs => LT cols idxs | VC _ ty => LC ty | VR a b => LR a b | VG i => LG i | VI o s => LI o s | _ => LO end.
 Definition lview_of (ob : obj) : lview := lv (cview_of ob).
 
 Lemma lview_ref ob r : lview_of ob = lview_of (OReference r) -> exists r', ob = OReference r' /\ r_col1 r' = r_col1 r /\ r_col2 r' = r_col2 r.
@@ -48,12 +52,20 @@ Lemma lview_col ob c : lview_of ob = lview_of (OColumn c) -> exists c', ob = OCo
 Proof. destruct ob; try discriminate. cbn. intros H; inversion H. eauto. Qed.
 Lemma lview_table ob tb : lview_of ob = lview_of (OTable tb) -> exists tb', ob = OTable tb' /\ t_columns tb' = t_columns tb.
 Proof. destruct ob; try discriminate. cbn. intros H; inversion H. eauto. Qed.
+Lemma lview_table_idx ob tb : lview_of ob = lview_of (OTable tb) -> exists tb', ob = OTable tb' /\ t_columns tb' = t_columns tb /\ t_indexes tb' = t_indexes tb.
+Proof. destruct ob; try discriminate. cbn. intros H; inversion H. eauto. Qed.
+Lemma lview_idx ob ix t : lview_of ob = lview_of (OIndex ix) -> i_table ix = Some t ->
+  exists ix', ob = OIndex ix' /\ i_table ix' = Some t /\ i_subjects ix' = i_subjects ix.
+Proof.
+  destruct ob as [x1|x2|i|x4|x5|x6|x7|x8|x9|x10|x11|x12]; try discriminate. unfold lview_of, cview_of, lv. intros H Ht. rewrite Ht in H. injection H as E1 E2.
+  exists i. split; [reflexivity|]. split; [exact E1|]. rewrite E1 in E2. exact E2.
+Qed.
 
 (* a heap change that keeps that view of every object that existed; new tables are empty *)
 Definition cstable (h h' : heap) : Prop :=
   (forall x ob, nth_error h x = Some ob -> exists ob', nth_error h' x = Some ob' /\ lview_of ob' = lview_of ob) /\
   (forall x ob', nth_error h' x = Some ob' -> (exists ob, nth_error h x = Some ob /\ lview_of ob' = lview_of ob) \/
-                                               (nth_error h x = None /\ forall tb, ob' = OTable tb -> t_columns tb = [])).
+                                               (nth_error h x = None /\ forall tb, ob' = OTable tb -> t_columns tb = [] /\ t_indexes tb = [])).
 
 Lemma cstable_same_cview h h' : same_cview h h' -> cstable h h'.
 Proof.
@@ -69,7 +81,7 @@ Proof.
   - intros x ob Hx. destruct (Rext_old_obj _ _ _ _ R Hx) as (ob' & A & B). exists ob'. split; [exact A|unfold lview_of; rewrite (views_c _ _ B); reflexivity].
   - intros x ob' Hx. destruct (Rext_back _ _ _ _ R Hx) as [[Hl (ob & A & B)]|[Hl Hn]].
     + left. exists ob. split; [exact A|unfold lview_of; rewrite (views_c _ _ B); reflexivity].
-    + right. split; [apply nth_error_None; exact Hl|]. intros tb ->. destruct Hn as [A _]. exact A.
+    + right. split; [apply nth_error_None; exact Hl|]. intros tb ->. destruct Hn as [A [B _]]. split; assumption.
 Qed.
 
 (* LinkedMore survives when the heap changes stably and the lists of the database only grow *)
@@ -82,7 +94,7 @@ Lemma LinkedMore_stable h h' d db db' :
   (forall r, In r (d_refs db) -> nth_error h r <> None) -> (forall g, In g (d_table_groups db) -> nth_error h g <> None) ->
   LinkedMore h d db -> LinkedMore h' d db'.
 Proof.
-  intros [Sf Sb] HW It Ie Hr Hg Hrex Hgex [LE LG LN]. split.
+  intros [Sf Sb] HW It Ie Hr Hg Hrex Hgex [LE LG LN LS]. split.
   - intros r rr Hin Hrr. destruct (Hr r Hin) as [Hold|Hnew]; [|eapply Hnew; eauto].
     apply h_reference_nth in Hrr. destruct (Sb r _ Hrr) as [(ob & A & B)|[A _]]; [|exfalso; apply (Hrex r Hold); exact A].
     destruct (lview_ref _ _ (eq_sym B)) as (r0 & -> & E1 & E2).
@@ -105,7 +117,17 @@ Proof.
       destruct cob; try discriminate Hown. destruct (Sf c _ Hcob) as (cob' & A' & B').
       destruct (lview_col _ _ B') as (c1 & -> & Ety). apply h_column_nth in Hcc. rewrite A' in Hcc. inversion Hcc; subst c1.
       apply Ie. eapply (LN t tb0 c c0 e); eauto. apply h_column_nth; exact Hcob. congruence.
-    + rewrite (Hnew tb eq_refl) in Hc. destruct Hc.
+    + rewrite (proj1 (Hnew tb eq_refl)) in Hc. destruct Hc.
+  - intros t tb i ix subs c Hd Ht Hi Hix Hs Hc. apply h_table_nth in Ht. destruct (Sb t _ Ht) as [(ob & A & B)|[A Hnew]].
+    + destruct (lview_table_idx _ _ (eq_sym B)) as (tb0 & -> & C1 & C2).
+      assert (Ht0 : h_table h t = Some tb0) by (unfold h_table; rewrite A; reflexivity).
+      assert (Hi0 : In i (t_indexes tb0)) by congruence.
+      destruct (w_fwd _ _ (HW CKIdx) t tb0 i Ht0 Hi0) as (iob & Hiob & Hown).
+      destruct iob as [x1|x2|ix0|x4|x5|x6|x7|x8|x9|x10|x11|x12]; try discriminate Hown. cbn in Hown. inversion Hown as [Hown'].
+      destruct (Sf i _ Hiob) as (iob' & A' & B').
+      destruct (lview_idx _ _ t B' Hown') as (ix1 & -> & _ & Es). apply h_index_nth in Hix. rewrite A' in Hix. inversion Hix; subst ix1.
+      rewrite <- C1. eapply (LS t tb0 i ix0 subs c); eauto. apply h_index_nth; exact Hiob. congruence.
+    + rewrite (proj2 (Hnew tb eq_refl)) in Hi. destruct Hi.
 Qed.
 
 (* ====================== part 2 ====================== *)
@@ -187,7 +209,7 @@ Lemma LinkedMore_add_column h d db t tb c cc :
   (forall e, c_type cc = CTEnum e -> In e (d_enums db)) ->
   LinkedMore (tupd h t c (set_columns (t_columns tb ++ [c]) tb) (OColumn (set_c_table (Some t) cc))) d db.
 Proof.
-  intros [LE LG LN] Ht Hc Hty.
+  intros [LE LG LN LS] Ht Hc Hty.
   set (tb2 := set_columns (t_columns tb ++ [c]) tb). set (ob2 := OColumn (set_c_table (Some t) cc)).
   assert (Hct : c <> t) by (eapply tupd_ct; eauto).
   assert (Nt : nth_error (tupd h t c tb2 ob2) t = Some (OTable tb2)) by (eapply tupd_nth_t; eauto).
@@ -225,29 +247,68 @@ Proof.
     + assert (Ht10 : h_table h t1 = Some tb1).
       { unfold h_table in *. rewrite No in Ht1; [exact Ht1|exact N1|]. intros ->. rewrite Nc in Ht1. discriminate Ht1. }
       eapply (LN t1 tb1 c1 cc1 e); eauto. apply h_column_nth; exact Hold.
+  - intros t1 tb1 i1 ix1 subs c1 Hd Ht1 Hi1 Hix1 Hs Hc1. apply h_index_nth in Hix1.
+    assert (Hold : nth_error h i1 = Some (OIndex ix1)).
+    { destruct (Nat.eq_dec i1 t) as [->|N1]; [rewrite Nt in Hix1; discriminate Hix1|].
+      destruct (Nat.eq_dec i1 c) as [->|N2]; [rewrite Nc in Hix1; discriminate Hix1|]. rewrite No in Hix1 by assumption. exact Hix1. }
+    destruct (Nat.eq_dec t1 t) as [->|N1].
+    + unfold h_table in Ht1. rewrite Nt in Ht1. inversion Ht1; subst tb1. cbn in Hi1 |- *. apply in_or_app. left.
+      eapply (LS t tb i1 ix1 subs c1); eauto. apply h_index_nth; exact Hold.
+    + assert (Ht10 : h_table h t1 = Some tb1).
+      { unfold h_table in *. rewrite No in Ht1; [exact Ht1|exact N1|]. intros ->. rewrite Nc in Ht1. discriminate Ht1. }
+      eapply (LS t1 tb1 i1 ix1 subs c1); eauto. apply h_index_nth; exact Hold.
 Qed.
 
-(* (D) attaching an index changes no column list, type, endpoint list or group *)
-Lemma cstable_add_index h t tb i ix : h_table h t = Some tb -> nth_error h i = Some (OIndex ix) ->
-  cstable h (tupd h t i (set_indexes (t_indexes tb ++ [i]) tb) (OIndex (set_i_table (Some t) ix))).
+(* (D) a detached index whose column subjects are columns of table t becomes the last index of t *)
+Lemma LinkedMore_add_index h d db t tb i ix :
+  LinkedMore h d db -> WW h -> h_table h t = Some tb -> nth_error h i = Some (OIndex ix) -> i_table ix = None ->
+  (forall subs c, i_subjects ix = Some subs -> In (SubCol c) subs -> In c (t_columns tb)) ->
+  LinkedMore (tupd h t i (set_indexes (t_indexes tb ++ [i]) tb) (OIndex (set_i_table (Some t) ix))) d db.
 Proof.
-  intros Ht Hi.
+  intros [LE LG LN LS] HW Ht Hi Hdet Hsub.
   set (tb2 := set_indexes (t_indexes tb ++ [i]) tb). set (ob2 := OIndex (set_i_table (Some t) ix)).
   assert (Hct : i <> t) by (eapply tupd_ct; eauto).
   assert (Nt : nth_error (tupd h t i tb2 ob2) t = Some (OTable tb2)) by (eapply tupd_nth_t; eauto).
   assert (Nc : nth_error (tupd h t i tb2 ob2) i = Some ob2) by (eapply tupd_nth_c; eauto).
   assert (No : forall x, x <> t -> x <> i -> nth_error (tupd h t i tb2 ob2) x = nth_error h x) by (intros; apply tupd_nth_other; auto).
+  (* every table keeps its columns *)
+  assert (Tt : forall x xb, h_table h x = Some xb -> exists xb', h_table (tupd h t i tb2 ob2) x = Some xb' /\ t_columns xb' = t_columns xb).
+  { intros x xb Hx. destruct (Nat.eq_dec x t) as [->|N].
+    - rewrite Ht in Hx. inversion Hx; subst xb. exists tb2. split; [unfold h_table; rewrite Nt; reflexivity|reflexivity].
+    - exists xb. split; [|reflexivity]. unfold h_table. rewrite No; [exact Hx|exact N|].
+      intros ->. apply h_table_nth in Hx. congruence. }
+  assert (Tb : forall x xb', h_table (tupd h t i tb2 ob2) x = Some xb' ->
+              (x = t /\ xb' = tb2) \/ (x <> t /\ h_table h x = Some xb')).
+  { intros x xb' Hx. destruct (Nat.eq_dec x t) as [->|N].
+    - left. split; [reflexivity|]. unfold h_table in Hx. rewrite Nt in Hx. inversion Hx; reflexivity.
+    - right. split; [exact N|]. unfold h_table in *. rewrite No in Hx; [exact Hx|exact N|]. intros ->. rewrite Nc in Hx. discriminate Hx. }
+  assert (Oo : forall x ob, nth_error (tupd h t i tb2 ob2) x = Some ob -> is_tab ob = false -> (forall z, ob <> OIndex z) -> nth_error h x = Some ob).
+  { intros x ob Hx A B. destruct (Nat.eq_dec x t) as [->|N1]; [rewrite Nt in Hx; inversion Hx; subst; discriminate A|].
+    destruct (Nat.eq_dec x i) as [->|N2]; [rewrite Nc in Hx; inversion Hx; subst; exfalso; eapply B; reflexivity|]. rewrite No in Hx by assumption. exact Hx. }
   split.
-  - intros x ob Hx. destruct (Nat.eq_dec x t) as [->|N1].
-    + rewrite (h_table_nth _ _ _ Ht) in Hx. inversion Hx; subst. exists (OTable tb2). split; [exact Nt|reflexivity].
-    + destruct (Nat.eq_dec x i) as [->|N2].
-      * rewrite Hi in Hx. inversion Hx; subst. exists ob2. split; [exact Nc|reflexivity].
-      * exists ob. split; [rewrite No by assumption; exact Hx|reflexivity].
-  - intros x ob' Hx. left. destruct (Nat.eq_dec x t) as [->|N1].
-    + rewrite Nt in Hx. inversion Hx; subst. exists (OTable tb). split; [apply h_table_nth; exact Ht|reflexivity].
-    + destruct (Nat.eq_dec x i) as [->|N2].
-      * rewrite Nc in Hx. inversion Hx; subst. exists (OIndex ix). split; [exact Hi|reflexivity].
-      * exists ob'. split; [rewrite No in Hx by assumption; exact Hx|reflexivity].
+  - intros r rr Hin Hrr. apply h_reference_nth in Hrr. pose proof (Oo r _ Hrr eq_refl ltac:(intros z; discriminate)) as Hrr0.
+    destruct (LE r rr Hin (proj2 (h_reference_nth _ _ _) Hrr0)) as [Hends Hshape]. split; [|exact Hshape]. intros cs Hcs.
+    destruct (Hends cs Hcs) as (t0 & tb0 & A & B & C). destruct (Tt t0 tb0 B) as (tb0' & B' & C'). exists t0, tb0'.
+    split; [exact A|]. split; [exact B'|]. rewrite C'. exact C.
+  - intros g gg Hin Hgg. apply h_group_nth in Hgg. pose proof (Oo g _ Hgg eq_refl ltac:(intros z; discriminate)) as Hgg0.
+    apply (LG g gg Hin (proj2 (h_group_nth _ _ _) Hgg0)).
+  - intros t1 tb1 c1 cc1 e Hd Ht1 Hc1 Hcc1 Hty1. apply h_column_nth in Hcc1.
+    pose proof (Oo c1 _ Hcc1 eq_refl ltac:(intros z; discriminate)) as Hold.
+    destruct (Tb t1 tb1 Ht1) as [[-> ->]|[N1 Ht10]].
+    + eapply (LN t tb c1 cc1 e); eauto. apply h_column_nth; exact Hold.
+    + eapply (LN t1 tb1 c1 cc1 e); eauto. apply h_column_nth; exact Hold.
+  - intros t1 tb1 i1 ix1 subs c1 Hd Ht1 Hi1 Hix1 Hs Hc1. apply h_index_nth in Hix1.
+    destruct (Nat.eq_dec i1 i) as [->|Ni].
+    + (* the index that was just attached *)
+      rewrite Nc in Hix1. inversion Hix1; subst ix1. cbn [i_subjects set_i_table] in Hs.
+      destruct (Tb t1 tb1 Ht1) as [[-> ->]|[N1 Ht10]]; [cbn [t_columns set_indexes tb2]; eapply Hsub; eauto|].
+      exfalso. destruct (w_fwd _ _ (HW CKIdx) t1 tb1 i Ht10 Hi1) as (ob & A & B). rewrite Hi in A. inversion A; subst ob. cbn in B. congruence.
+    + assert (Hold : nth_error h i1 = Some (OIndex ix1)).
+      { destruct (Nat.eq_dec i1 t) as [->|N1]; [rewrite Nt in Hix1; discriminate Hix1|]. rewrite No in Hix1 by assumption. exact Hix1. }
+      destruct (Tb t1 tb1 Ht1) as [[-> ->]|[N1 Ht10]].
+      * cbn [t_indexes t_columns set_indexes tb2] in Hi1 |- *. apply in_app_or in Hi1 as [Hi1|[E|[]]]; [|congruence].
+        eapply (LS t tb i1 ix1 subs c1); eauto. apply h_index_nth; exact Hold.
+      * eapply (LS t1 tb1 i1 ix1 subs c1); eauto. apply h_index_nth; exact Hold.
 Qed.
 
 (* ====================== part 4 ====================== *)
@@ -356,6 +417,36 @@ Proof.
     + eapply is_tbl_dview; [exact S|]. unfold is_tbl. congruence.
 Qed.
 
+(* a column subject resolved for table t is one of t's columns, and stays one while the other subjects are resolved *)
+Lemma subject_of_post t x h h' y : subject_of t x h = (h', Ok y) ->
+  forall c, y = SubCol c -> h' = h /\ exists tb, h_table h t = Some tb /\ In c (t_columns tb).
+Proof.
+  intros H c ->. unfold subject_of in H. destruct x as [nm|b0|z0|f0| |d0|l0|tag xd]; try discriminate H.
+  - apply bindM_inv in H as [[e [_ H]]|[tb [h1 [H1 H]]]]; [discriminate H|].
+    pose proof (ro_get_table t _ _ _ H1) as ->.
+    assert (Htb : h_table h t = Some tb).
+    { unfold get_table, bindM, lookup in H1. unfold h_table. destruct (nth_error h t) as [[]|]; inversion H1; reflexivity. }
+    apply bindM_inv in H as [[e [_ H]]|[hh [h2 [H2 H]]]]; [discriminate H|]. unfold get_heap in H2. inversion H2; subst h2 hh.
+    match type of H with (match find ?f ?l with _ => _ end) _ = _ => destruct (find f l) as [c1|] eqn:Ef end; [|discriminate H].
+    unfold ret in H. inversion H; subst. split; [reflexivity|]. exists tb. split; [exact Htb|]. apply find_some in Ef. apply Ef.
+  - exfalso. destruct tag as [|p]; [discriminate H|]. destruct p as [[q|q|]|q|]; try discriminate H.
+    all: destruct (dget (K "text") xd) as [[]|]; try discriminate H.
+    all: apply bindM_inv in H as [[e [_ H]]|[xx [h1 [_ H]]]]; [discriminate H|]; unfold ret in H; inversion H.
+Qed.
+
+Lemma subjects_post t l : forall h h' subs, mapMM (subject_of t) l h = (h', Ok subs) ->
+  forall c, In (SubCol c) subs -> exists tb, h_table h' t = Some tb /\ In c (t_columns tb).
+Proof.
+  induction l as [|x l IH]; intros h h' subs H c Hin; cbn [mapMM] in H.
+  - inversion H; subst. destruct Hin.
+  - apply bindM_inv in H as [[e [_ H]]|[y [h1 [H1 H]]]]; [discriminate H|].
+    apply bindM_inv in H as [[e [_ H]]|[ys [h2 [H2 H]]]]; [discriminate H|]. unfold ret in H. inversion H; subst h2 subs. clear H.
+    destruct Hin as [E|Hin]; [|eapply IH; eauto].
+    destruct (subject_of_post t x h h1 y H1 c E) as (-> & tb & Ht & Hc).
+    pose proof (g_mapMM _ Rext_refl Rext_trans (subject_of t) l (gR_subject_of t) _ _ _ H2) as R.
+    destruct (Rext_table_fwd _ _ _ _ R Ht) as (tb' & Ht' & Ec & _). exists tb'. split; [exact Ht'|]. rewrite Ec. exact Hc.
+Qed.
+
 (* one index of a table under construction *)
 Lemma presM_add_built_index d t ib l :
   presM d (fun h => is_tbl h t)
@@ -368,10 +459,11 @@ Proof.
   { pose proof (g_mapMM _ Rext_refl Rext_trans (subject_of t) l (gR_subject_of t) _ _ _ H3) as R2.
     pose proof (Rext_trans _ _ _ R1 R2) as R. split; [eapply JM_Rext; eauto|eapply is_tbl_Rext; eauto]. }
   pose proof (g_mapMM _ Rext_refl Rext_trans (subject_of t) l (gR_subject_of t) _ _ _ H3) as R2.
+  pose proof (detached_idx_Rext _ _ _ R2 Hdi) as Hdi2.
   apply bindM_inv in H4 as [[e [H5 _]]|[u [h3 [H5 H6]]]].
-  { pose proof (gR_upd_index_subjects _ _ _ _ _ H5) as R3.
+  { pose proof (upd_index_subjects_Rext _ _ _ _ _ Hdi2 H5) as R3.
     pose proof (Rext_trans _ _ _ (Rext_trans _ _ _ R1 R2) R3) as R. split; [eapply JM_Rext; eauto|eapply is_tbl_Rext; eauto]. }
-  pose proof (gR_upd_index_subjects _ _ _ _ _ H5) as R3.
+  pose proof (upd_index_subjects_Rext _ _ _ _ _ Hdi2 H5) as R3.
   pose proof (Rext_trans _ _ _ (Rext_trans _ _ _ R1 R2) R3) as R.
   assert (HJ3 : JM d h3) by (eapply JM_Rext; eauto). assert (HP3 : is_tbl h3 t) by (eapply is_tbl_Rext; eauto).
   assert (Hdi3 : detached_idx h3 i) by (eapply detached_idx_Rext; [exact (Rext_trans _ _ _ R2 R3)|exact Hdi]).
@@ -382,9 +474,13 @@ Proof.
   { rewrite R' in H6. inversion H6; subst. split; [exists db; split; [split; assumption|exact LM]|unfold is_tbl; congruence]. }
   rewrite Erun in H6. inversion H6; subst h' r. clear H6. split.
   - exists db. split; [split; [eapply InvDB_view; eauto|exact HW']|].
-    eapply LinkedMore_stable; [eapply cstable_add_index; eauto|exact HW| | | | | | |exact LM]; try apply incl_refl; auto.
-    + intros r0 Hin. eapply member_exists. apply (id_members _ _ _ ID KRef r0 Hin).
-    + intros g0 Hin. eapply member_exists. apply (id_members _ _ _ ID KGroup g0 Hin).
+    apply LinkedMore_add_index; auto.
+    (* the subjects just stored are columns of t *)
+    intros subs' c Hs Hc. destruct Hdi2 as (ix2 & Hi2 & Hd2).
+    rewrite (upd_index_ok _ _ _ _ Hi2) in H5. inversion H5; subst h3.
+    rewrite (nth_replace_same' _ _ _ _ Hi2) in Hi. inversion Hi; subst ix. cbn [i_subjects set_subjects] in Hs. inversion Hs; subst subs'.
+    destruct (subjects_post t l _ _ _ H3 c Hc) as (tb2 & Ht2 & Hc2).
+    destruct (Rext_table_fwd _ _ _ _ R3 Ht2) as (tb3 & Ht3 & Ec & _). rewrite Ht in Ht3. inversion Ht3; subst tb3. rewrite Ec. exact Hc2.
   - eapply is_tbl_dview; [exact S|]. unfold is_tbl. congruence.
 Qed.
 
@@ -620,7 +716,8 @@ Proof.
     - split.
       + intros r0 rr [].
       + intros g gg [].
-      + intros t tb c cc e Hd Ht Hc. exfalso. apply h_table_nth in Ht. apply nth_some_lt in Ht. rewrite app_length in Ht. cbn in Ht. unfold d in Hd. lia. }
+      + intros t tb c cc e Hd Ht Hc. exfalso. apply h_table_nth in Ht. apply nth_some_lt in Ht. rewrite app_length in Ht. cbn in Ht. unfold d in Hd. lia.
+      + intros t tb i ix subs c Hd Ht. exfalso. apply h_table_nth in Ht. apply nth_some_lt in Ht. rewrite app_length in Ht. cbn in Ht. unfold d in Hd. lia. }
   rewrite Forall_forall in Hg. revert H. generalize (h0 ++ [ODatabase db0]) HJ. clear HJ. intros hh HJ H.
   eapply (presJ_bind d) in H; [exact H| |intros _|exact HJ].
   { apply presJ_iterM_in. intros bp _ h h' r0 HJ0 H0. eapply (JM_build_then_add d build_enum bp); eauto; [apply gR_build_enum|].
@@ -821,4 +918,49 @@ Proof.
   eexists. split; [symmetry; exact E|]. split; [apply dget_dset_same|]. split.
   - rewrite dget_dset_other by reflexivity. apply dget_dset_same.
   - rewrite !dget_dset_other by reflexivity. apply dget_dset_same.
+Qed.
+
+(* ====================== part 10 ====================== *)
+
+(* on a linked database the key-holder question has an answer for every contained reference and every table *)
+Lemma holds_key_total h d db r rr t : Inv h d db -> LinkedMore h d db -> In r (d_refs db) -> h_reference h r = Some rr ->
+  exists b, holds_key h rr t = Ok b.
+Proof.
+  intros I LM Hin Hr.
+  destruct (ref_tables_resolve h d db r rr I LM Hin Hr) as (t1 & tb1 & t2 & tb2 & cs1 & cs2 & _ & _ & R1 & R2 & _).
+  unfold holds_key. rewrite R1, R2. cbn [bind].
+  destruct (ostr_eqb (r_type rr) (Some MANY_TO_ONE) || ostr_eqb (r_type rr) (Some ONE_TO_ONE)); [eauto|].
+  destruct (ostr_eqb (r_type rr) (Some ONE_TO_MANY)); eauto.
+Qed.
+
+Lemma refs_for_sql_loop_total h d db t : Inv h d db -> LinkedMore h d db ->
+  forall l, incl l (d_refs db) -> exists res, refs_for_sql_loop h t l = Ok res.
+Proof.
+  intros I LM. pose proof I as [ID _]. induction l as [|r l IH]; intros Hincl; [exists []; reflexivity|].
+  assert (Hr : In r (d_refs db)) by (apply Hincl; left; reflexivity).
+  destruct (id_members _ _ _ ID KRef r Hr) as (ob & A & B & _). destruct ob; try discriminate B.
+  assert (Hrr : h_reference h r = Some r0) by (unfold h_reference; rewrite A; reflexivity).
+  destruct (holds_key_total h d db r r0 t I LM Hr Hrr) as [b Hb].
+  destruct (IH (fun y Hy => Hincl y (or_intror Hy))) as [res Hres].
+  cbn [refs_for_sql_loop]. rewrite Hrr, Hb. cbn [bind]. rewrite Hres. cbn [bind]. eauto.
+Qed.
+
+(* C04: every contained reference that is not many-to-many is listed by get_references_for_sql of exactly one table *)
+Theorem exactly_one_table_hosts_the_key h d db r rr : Inv h d db -> LinkedMore h d db -> In r (d_refs db) -> h_reference h r = Some rr ->
+  (ostr_eqb (r_type rr) (Some MANY_TO_ONE) || ostr_eqb (r_type rr) (Some ONE_TO_ONE) || ostr_eqb (r_type rr) (Some ONE_TO_MANY)) = true ->
+  exists holder, In holder (d_tables db) /\
+    forall t tb, In t (d_tables db) -> h_table h t = Some tb ->
+      exists l, references_for_sql h t tb = Ok l /\ (In r l <-> t = holder).
+Proof.
+  intros I LM Hin Hr Hty. pose proof I as [ID _]. pose proof (id_tables _ _ _ ID) as [Idb _ _ _ If _].
+  destruct (key_holder_unique h d db r rr I LM Hin Hr Hty) as (holder & Hh & Hk).
+  exists holder. split; [exact Hh|]. intros t tb Ht Htb.
+  destruct (If t Ht) as (tb' & Htb' & Hown & _). rewrite Htb in Htb'. inversion Htb'; subst tb'.
+  destruct (refs_for_sql_loop_total h d db t I LM (d_refs db) (incl_refl _)) as [l Hl].
+  assert (E : references_for_sql h t tb = Ok l) by (unfold references_for_sql; rewrite Hown, Idb; exact Hl).
+  exists l. split; [exact E|].
+  rewrite (references_for_sql_char h t tb d db l Hown Idb E r). split.
+  - intros (_ & r' & Hr' & Hkey). rewrite Hr in Hr'. inversion Hr'; subst r'. rewrite (Hk t Ht) in Hkey. inversion Hkey as [E2].
+    apply Nat.eqb_eq in E2. exact E2.
+  - intros ->. split; [exact Hin|]. exists rr. split; [exact Hr|]. rewrite (Hk holder Hh). rewrite Nat.eqb_refl. reflexivity.
 Qed.
